@@ -462,7 +462,19 @@ FIXED_BODIES = [
 ALPHABET = [["enter", 1], ["exit"], ["resume", 0, ["send", None]], ["resume", 0, ["send", 7]], ["resume", 0, ["throw", 0]], ["resume", 0, ["close"]]]
 
 
+# minimal / hand-picked cases, run first (so that a replay file shows the smallest failing input)
+CORPUS = [
+    dict(gens=[[["ret", 7]]], script=[["resume", 0, ["send", None]]], family="corpus"),
+    dict(gens=[[["enter", 11], ["log", 1], ["yield", 1], ["log", 2], ["exit"], ["log", 3]]],
+         script=[["enter", 1], ["resume", 0, ["send", None]], ["exit"], ["enter", 2], ["resume", 0, ["send", 5]]], family="corpus"),
+    dict(gens=[[["enter", 11], ["yield", 1], ["resume", 1, ["send", None]], ["log", 1], ["resume", 1, ["throw", 0]], ["log", 2]],
+               [["log", 3], ["enter", 21], ["try"], ["yield", 2], ["catch", False], ["log", 4], ["exit"], ["endcatch"], ["log", 5]]],
+         script=[["enter", 1], ["resume", 0, ["send", None]], ["exit"], ["enter", 3], ["resume", 0, ["send", None]], ["resume", 1, ["close"]]], family="corpus"),
+]
+
+
 def run(ctx):
+    evaluate(ctx, CORPUS, "corpus")
     rng = ctx.rng("gen")
     n = ctx.budget(400, 20000)
     cases = [gen_case(rng, big=(k % 3 == 0)) for k in range(n)]
